@@ -509,7 +509,13 @@ func TestDifferential(t *testing.T) {
 		if rapid.IntRange(0, 2).Draw(rt, "mutated") == 0 {
 			var kind string
 			flight, kind = mutate(rt, flight)
-			class, desc = "mutated-"+kind, desc+" mutation="+kind
+			// (the class is the kind of mutation; the record-header version stamped on top is a class of its own)
+			if base, rv, stamped := strings.Cut(kind, "+record-version-"); stamped {
+				hx.Class("C07/record-header-version-"+rv, 1)
+				class, desc = "mutated-"+base, desc+" mutation="+kind
+			} else {
+				class, desc = "mutated-"+kind, desc+" mutation="+kind
+			}
 		}
 		if checkHello(rt, flight, sni, alpn, class, desc) {
 			accepted++
